@@ -201,9 +201,11 @@ class HOLTransformer(Transformer):
         from data import list
         return list.mk_literal_list(args, None)
 
-    def char(self, c):
+    def char(self, *args):
         from data import string
-        return string.mk_char(str(c))
+        # The anonymous token "_" is filtered out of the parse tree.
+        c = str(args[0]) if args else "_"
+        return string.mk_char(c)
 
     def string(self, s):
         from data import string
